@@ -226,7 +226,8 @@ def gen_episodes(rng, n):
         maxa = rng.choice([2, 3, 3, 5])
         ev = [{"op": "open"}, {"op": "isopen"}]
         for ep in range(rng.randrange(2, 5)):
-            ev.append({"op": "failopens", "n": rng.randrange(0, maxa)})      # fewer failures than the budget: the episode ends in a reopen
+            # fewer failures than the budget: the episode ends in a reopen (the first episode uses the whole budget but one)
+            ev.append({"op": "failopens", "n": (maxa - 1) if ep == 0 else rng.randrange(0, maxa)})
             ev += traffic(rng)
             ev.append({"op": "readerr", "kind": rng.choice([1, 2, 3]), "tag": 40 + ep})
             ev.append({"op": "isopen"})
@@ -234,7 +235,8 @@ def gen_episodes(rng, n):
         q = {"monitor": True, "auto": True, "events": ev, "family": "episodes"}
         q.update(rand_policy(rng))
         q["max"] = maxa
-        q["init_ns"] = rng.choice([0, 1, 1000])
+        # waits that double across the cap: MaxWait is not InitialWait times a power of two
+        q["init_ns"], q["max_ns"] = rng.choice([(1000, 3000), (2000, 5000), (1, 3), (1000, 2500), (0, 1000), (1000, 1000), (3, 7)])
         cases.append(q)
     return cases
 
